@@ -27,6 +27,8 @@ type UDFNode struct {
 	wg      sync.WaitGroup
 	mu      sync.Mutex
 	stopped bool
+	// opened is set once the node goroutine has opened the UDF; until then there is nothing to talk to
+	opened bool
 }
 
 // Create a new UDFNode that sends incoming data to child udf
@@ -80,6 +82,9 @@ func (n *UDFNode) runUDF(snapshot []byte) (err error) {
 	if err := n.udf.Open(); err != nil {
 		return err
 	}
+	n.mu.Lock()
+	n.opened = true
+	n.mu.Unlock()
 	if err := n.udf.Init(n.u.Options); err != nil {
 		return err
 	}
@@ -142,7 +147,17 @@ func (n *UDFNode) abortedCallback() {
 	n.wg.Wait()
 }
 
+var errUDFNotOpen = errors.New("UDF is not open yet")
+
 func (n *UDFNode) snapshot() ([]byte, error) {
+	// The task snapshotter runs in its own goroutine and may get here before the node goroutine has opened
+	// the UDF (connecting to a socket is retried for minutes): the UDF object has no server to ask yet.
+	n.mu.Lock()
+	opened := n.opened
+	n.mu.Unlock()
+	if !opened {
+		return nil, errUDFNotOpen
+	}
 	return n.udf.Snapshot()
 }
 
